@@ -871,8 +871,6 @@ def _drift_ops():
         "where-cond-drift": (lambda r: da.where(r > 10, _known_like(r), -1.0), lambda a: np.where(a > 10, _np_known_like(a), -1.0)),
         "matmul-known": (lambda r: r.reshape(r.shape[0], -1).T @ _known_like(r).reshape(r.shape[0], -1), lambda a: a.reshape(a.shape[0], -1).T @ _np_known_like(a).reshape(a.shape[0], -1)),
         "histogram-weights-drift": (lambda r: da.histogram(_known_like(r).rechunk(r.chunks), bins=4, range=(0, 60), weights=r)[0], lambda a: np.histogram(_np_known_like(a), bins=4, range=(0, 60), weights=a)[0]),
-        "histogram2d-weights-drift": (lambda r: da.histogram2d(_known_like(r).ravel().rechunk(r.ravel().chunks), _known_like(r).ravel().rechunk(r.ravel().chunks) / 2, bins=(2, 2), range=((0, 80), (0, 40)), weights=r.ravel())[0],
-                                      lambda a: np.histogram2d(_np_known_like(a).ravel(), _np_known_like(a).ravel() / 2, bins=(2, 2), range=((0, 80), (0, 40)), weights=a.ravel())[0]),
         "average-weights-drift": (lambda r: da.average(_known_like(r), axis=0, weights=r), lambda a: np.average(_np_known_like(a), axis=0, weights=a)),
         "compress-cond-drift": (lambda r: da.compress((r.ravel() > 10), _known_like(r).ravel(), axis=0), lambda a: np.compress(a.ravel() > 10, _np_known_like(a).ravel(), axis=0)),
         "concatenate-known-drift": (lambda r: da.concatenate([_known_like(r), r, _known_like(r)[:1]]), lambda a: np.concatenate([_np_known_like(a), a, _np_known_like(a)[:1]])),
@@ -976,11 +974,15 @@ class histogramdd_drifting_coordinate:
         k = da.from_array(b, chunks=r.chunks)
         sample = (r, k) if drifting != "second" else (k, r)
         ref = (a, b) if drifting != "second" else (b, a)
+        kw, nkw = {}, {}
+        if drifting == "weights":
+            sample, ref = (k, k / 2), (b, b / 2)
+            kw, nkw = {"weights": r}, {"weights": a}
         try:
-            got = np.asarray(da.histogramdd(sample, bins=(3, 2), range=((0, 40), (0, 40)))[0].compute())
+            got = np.asarray(da.histogramdd(sample, bins=(3, 2), range=((0, 40), (0, 40)), **kw)[0].compute())
         except Exception as e:
             return ("raised", f"{type(e).__name__}: {str(e)[:60]}", None)
-        return ("computed", got, np.histogramdd(ref, bins=(3, 2), range=((0, 40), (0, 40)))[0])
+        return ("computed", got, np.histogramdd(ref, bins=(3, 2), range=((0, 40), (0, 40)), **nkw)[0])
 
     def requires(drifting, chunks):
         return True
@@ -990,7 +992,7 @@ class histogramdd_drifting_coordinate:
         return {"computes-numpys-histogram": kind == "computed" and _same(got, want)}
 
     def domain(tier, rng):
-        for drifting in ("none", "first", "second"):
+        for drifting in ("none", "first", "second", "weights"):
             for chunks in (3, 4):
                 yield {"drifting": drifting, "chunks": chunks}
 
